@@ -64,7 +64,7 @@ func hopByHopHeaders(respHeader http.Header) map[string]struct{} {
 		"Connection":        {},
 		"Proxy-Connection":  {},
 		"Keep-Alive":        {},
-		"TE":                {},
+		"Te":                {}, // canonical form of "TE", as used in http.Header maps
 		"Transfer-Encoding": {},
 		"Upgrade":           {},
 		// RFC 9111 §3.1 proxy headers
@@ -74,8 +74,10 @@ func hopByHopHeaders(respHeader http.Header) map[string]struct{} {
 		// Also see net/http/response.go "respExcludeHeader" for additional excluded headers.
 	}
 	// Fields listed in the Connection header field
-	for field := range TrimmedCSVCanonicalSeq(respHeader.Get("Connection")) {
-		m[field] = struct{}{}
+	for _, line := range respHeader.Values("Connection") {
+		for field := range TrimmedCSVCanonicalSeq(line) {
+			m[field] = struct{}{}
+		}
 	}
 	return m
 }
